@@ -431,9 +431,24 @@ class Interp:
         elif isinstance(s, ast.Assert):
             v = self.expr(s.test, env, depth)
             vc = self.concrete(v) if v[0] == "atom" else v
-            typeish = any(isinstance(x, ast.Call) and isinstance(x.func, ast.Name) and x.func.id in ("type", "isinstance", "len", "hasattr", "callable", "issubclass") for x in ast.walk(s.test))
-            if vc[0] == "c" and not vc[1] and not typeish and isinstance(s.test, ast.Compare):
-                # definitely false under this cell: the statement raises (an undecided test is left alone)
+            t = s.test
+            # only value comparisons whose operands are fully known under this cell may raise: membership in a tuple
+            # of constants, (in)equality of constants / input atoms.  Type tests and anything the interpreter only
+            # half-evaluates are left alone.
+            definite = False
+            if isinstance(t, ast.Compare) and len(t.ops) == 1 and not any(isinstance(x, ast.Call) and isinstance(x.func, ast.Name) and x.func.id in ("type", "isinstance", "len", "hasattr", "callable", "issubclass") for x in ast.walk(t)):
+                lhs = self.expr(t.left, env, depth)
+                rhs = self.expr(t.comparators[0], env, depth)
+                lhs_c = self.concrete(lhs) if lhs[0] == "atom" else lhs
+                simple = lambda x: x[0] in ("c", "other")
+                if isinstance(t.ops[0], (ast.In, ast.NotIn)):
+                    items = rhs[1] if rhs[0] == "list" and not (len(rhs) > 2 and rhs[2]) else (list(rhs[1]) if rhs[0] == "c" and isinstance(rhs[1], (tuple, list)) else None)
+                    if items is not None and simple(lhs_c):
+                        definite = all((isinstance(i, tuple) and len(i) == 2 and i[0] == "c") or not isinstance(i, tuple) for i in items) and len(items) > 0
+                elif isinstance(t.ops[0], (ast.Eq, ast.NotEq)):
+                    rhs_c = self.concrete(rhs) if rhs[0] == "atom" else rhs
+                    definite = simple(lhs_c) and simple(rhs_c)
+            if definite and vc[0] == "c" and not vc[1]:
                 raise _Raise(("ext", "AssertionError", []), "AssertionError: %s" % unparse(s.test))
         elif isinstance(s, ast.Delete):
             for t in s.targets:
